@@ -124,8 +124,11 @@ _OUT = ['reference values outside the composed domain (covered by the bug-huntin
         'docs with several references', 'syntax-level errors']
 
 
+SHAPES = ['1'] + ['2%d' % k for k in range(len(SEPS))] + ['3']     # number of parts (and, for two parts, the separator)
+
+
 def _items():
-    return ['%s/%s' % (site, tag) for site in SITES for tag in TAGS]
+    return ['%s/%s/%s' % (site, tag, shape) for site in SITES for tag in TAGS for shape in SHAPES]
 
 
 @hx.harness(props=['C01', 'C03'], targets=_TG, items=_items,
@@ -140,7 +143,9 @@ def composed_ref(a: int, s1: int, b: int, s2: int, c: int, n: int) -> bool:
     pre: n < 3 or (PARTS[a] == 'ns2' and s1 == 0 and s2 == 0)
     post: _
     """
-    site, tag = hx.ITEM.split('/')
+    site, tag, shape = hx.ITEM.split('/')
+    if n != int(shape[0]) or (n == 2 and s1 != int(shape[1])):
+        return True                     # another instance explores this shape
     val = PARTS[a]
     if n >= 2:
         val += SEPS[s1] + PARTS[b]
@@ -150,7 +155,7 @@ def composed_ref(a: int, s1: int, b: int, s2: int, c: int, n: int) -> bool:
     return fe.decide(_asts(site, doc), lambda: _text(site, doc), ref_rule(site, tag, val))
 
 
-@hx.harness(props=['C03'], targets=_TG, items=_items,
+@hx.harness(props=['C03'], targets=_TG, items=lambda: ['%s/%s' % (site, tag) for site in SITES for tag in TAGS],
             bound='bug hunting: fully symbolic reference value (<= 5 chars over {S,f,r,a,2,.,:,space,-}); dictionary '
                   'look-ups realise the value, so the search cannot be exhaustive', outside=_OUT, budget=(30, 200),
             hunt=True)
